@@ -2,8 +2,10 @@
 # usage: ./sweep.sh <tier> <seed> [checks...]   — runs checks one after another, prints one summary line each
 TIER=$1; SEED=$2; shift 2
 LIST=${*:-C01 C02 C03 C04 C05 C06 C07 C08 C09 C10 C11 C12 C13 C14 C15 C16 C17 C18 C19 C20}
+WORST=0
 for c in $LIST; do
   VERIF_SEED=$SEED ./check $c --tier $TIER > /tmp/sweep.$c.$TIER.$SEED.log 2>&1; rc=$?
   echo "rc=$rc $(tail -1 /tmp/sweep.$c.$TIER.$SEED.log | cut -c1-200)"
-  [ $rc -ne 0 ] && grep -m3 -A1 "^VIOLATION\|^INCONCLUSIVE" /tmp/sweep.$c.$TIER.$SEED.log | cut -c1-400
+  [ $rc -ne 0 ] && WORST=$rc && grep -m3 -A1 "^VIOLATION\|^INCONCLUSIVE" /tmp/sweep.$c.$TIER.$SEED.log | cut -c1-400
 done
+exit $WORST
